@@ -4,38 +4,48 @@ PROP = dict(
     runs=[dict(cmd="c04", quick=900, thorough=60000)],
     trusted_base=[
         "hand-written Gallina mechanism model coq/Exec/CallTree.v of callExFromNative/unloadContext/handleException/"
-        "ContractHasTryBlock/dao layers and native cache/storeBlock persist-iff-halt (tied by correspondence)",
-        "hand-written ideal semantics coq/Exec/Spec.v (the specification)",
+        "ContractHasTryBlock/dao layers and native caches (Policy, NEO)/storeBlock persist-iff-halt/VM reuse across a block "
+        "(tied by correspondence)",
+        "hand-written ideal semantics coq/Exec/Spec.v (the specification); the storage effect of NEO.transfer and of a GAS mint "
+        "(neo_eff, mint_eff) is one function used by both the machine and the specification",
         "the NeoVM interpreter contract and entry-script compiler of harness/c04vm.go (they decide what the real chain is asked to do)",
+        "hooks (tag verif, add-only, /repo commit 8d67573): Blockchain.VerifNeoVotesChanged reads the NEO cache's votesChanged flag",
     ],
     assumptions=[
-        "theorems C04_*_partial hold under the syntactic guard `guard pol p`: no finally block contains a contract call (g2) and, "
-        "for the code as it is, a catch block followed by a finally block makes no un-layered call (g1); outside the guards the "
-        "statements are refuted in Coq (W1, W2) and the same witnesses are replayed on the real chain (known findings F13, F40)",
-        "gas accounting, witness checks, manifest permissions, NEO token, contract deployment inside a transaction are not part of the model",
+        "theorems C04_*_partial hold under the SEMANTIC guard that the machine's ghost flag stays down: no layered call frame and no "
+        "payment callback returned while an exception was pending (clean = true); contract calls in finally blocks entered by normal "
+        "completion are inside the guard; outside it the statement is refuted in Coq (W2) and on the real chain (known finding F40); "
+        "for the pre-repair policy Lazy the syntactic condition g1 is needed in addition (F13, repaired in /repo, W1)",
+        "the GAS a NEO account is minted when its balance is touched (calculateBonus) is an input of the model, read from the chain "
+        "(CalculateClaimable at the case block); gas accounting, witness checks, manifest permissions, contract deployment inside a "
+        "transaction, NEO vote/registration as tree operations are not part of the model",
     ],
-    modelled="block position (one reused VM, VM.Reset per transaction: block = fold of single transactions), layering decision, unload callbacks, exception unwinding with the pending-exception register, notification truncation, "
-             "copy-on-write Policy cache, GAS transfer with payment callback, persist-iff-halt: modelled and tied to the Go code by "
-             "differential evaluation (storage dump, balances, Policy value via cache and via storage, VM state, notification list) and by "
-             "replica comparison of state roots; not verified by translation",
+    modelled="block position (one reused VM, VM.Reset per transaction: block = fold of single transactions, fees burnt per sender first), "
+             "layering decision, unload callbacks, exception unwinding with the pending-exception register, notification truncation, "
+             "copy-on-write Policy and NEO caches, GAS transfer and NEO transfer (balances, candidate votes, voters count, votesChanged, "
+             "GAS claims to both sides) with payment callbacks, persist-iff-halt: modelled and tied to the Go code by differential "
+             "evaluation (storage dump, GAS/NEO balances, votes, Policy value via cache and storage, votesChanged via hook, VM state, "
+             "notification list, payer's balance) and by replica comparison of state roots; not verified by translation",
 )
 META = dict(
     text="Proved in Coq for all call trees (structural induction, no bound): a transaction that does not halt leaves the block-level "
-         "state exactly as after the fee deduction (unconditional); the lower store layers and notification prefix are never touched by an "
-         "execution (frame lemma, unconditional); a read-only callee changes nothing (unconditional); a block run on one reused VM with the "
-         "per-transaction reset is the fold of single transactions, and a transaction that does not halt is, at any block position, as if it "
-         "were not there (unconditional). Partial: equality of the lazy-layering "
-         "machine with ideal transactional frames (storage, native setting, notifications, halt/fault), 'a failed call leaves no trace' and "
-         "'before and after are kept' are proved under a syntactic guard (no contract call inside a finally block; for the code as it is also "
-         "no un-layered call in a catch block that has a finally block) and refuted without it by two witnesses that are reproduced on the real "
-         "chain (known findings F13: callee effects visible to the finally block change HALT into FAULT; F40: effects of a call made from an "
-         "exception-entered finally block are dropped). The model is tied to the Go code by running random and fault-injected call trees as "
-         "real transactions (NeoVM interpreter contracts, TRY/THROW, call flags, GAS transfers with payment callbacks, Policy setter) on two "
-         "replica chains and comparing with the model inside Coq (single transactions with read-only neighbours, and blocks of 2-4 "
-         "transactions whose earlier members end in HALT / uncaught throw / ABORT / ASSERT / fault in a callee / fault or swallowed exception "
-         "in a finally block / out of gas, compared per transaction and against the same transactions one per block), plus state-root equality with the block that carries a no-op twin instead of "
-         "the faulted transaction.",
-    note="Trusted: Coq kernel and vm_compute, the Go harness incl. its NeoVM interpreter contract, the orchestration script; model and "
-         "specification are hand-written and tied by correspondence only. Not modelled: gas, witnesses, permissions, NEO token distribution, "
-         "deployment/update inside a transaction, multi-transaction interaction beyond read-only neighbours, Storage.Find iterators.",
+         "state exactly as after the fee deduction from its sender (unconditional); the lower store layers and notification prefix are "
+         "never touched by an execution (frame lemma, unconditional); a read-only callee changes nothing (unconditional); a block run on "
+         "one reused VM with the per-transaction reset is the fold of single transactions after every fee has been burnt from its own "
+         "sender, and a transaction that does not halt is, at any block position, as if it were not there (unconditional). Partial: "
+         "equality of the lazy-layering machine with ideal transactional frames (storage incl. GAS and NEO balances, candidate votes, "
+         "voters count, GAS claims; Policy value and NEO votesChanged cache flag; notifications; halt/fault), 'a failed call leaves no "
+         "trace' and 'before and after are kept' are proved under a semantic guard - no layered call frame and no payment callback "
+         "returns while an exception is pending - which admits contract calls in finally blocks entered normally, and are refuted "
+         "without it by a witness reproduced on the real chain (known finding F40, same rule as the reference implementation). The "
+         "earlier finding F13 is repaired in /repo; the pre-repair machine is kept as policy Lazy with its own witness. The model is tied "
+         "to the Go code by running random and fault-injected call trees as real transactions (NeoVM interpreter contracts, TRY/THROW, "
+         "call flags, GAS and NEO transfers with payment callbacks that write or throw, voters, Policy setter, three different payers) "
+         "on two replica chains and comparing with the model inside Coq (single transactions with read-only neighbours, and blocks of "
+         "2-4 transactions from different senders whose earlier members end in every way), plus state-root equality with the block "
+         "that carries a no-op twin instead of the faulted transaction and with the same transactions spread one per block.",
+    note="Trusted: Coq kernel and vm_compute, the Go harness incl. its NeoVM interpreter contract, the orchestration script, one "
+         "read-only hook; model and specification are hand-written and tied by correspondence only. Not modelled: gas, witnesses, "
+         "permissions, the size of a GAS claim (input), deployment/update inside a transaction, Storage.Find iterators, NEO transfers "
+         "inside multi-transaction block cases (claims depend on the height).",
 )
